@@ -144,6 +144,9 @@ void HttpServer::serveFile(HttpRequest& request, HttpResponse& response)
 	{
 		String path = request.path();
 
+		if (!path.startsWith("/")) // the root must stay a directory prefix: "www" + "x" is a sibling of "www"
+			path = "/" + path;
+
 		if (path.endsWith("/"))
 			path += "index.html";
 
